@@ -81,6 +81,9 @@ open Neatvi.Props.C15 in
 theorem ecGlob_inv (f : Nat) (hbody : ExecOK f) (ed ed' : Ed) (loc cmd arg : Bytes) (r : Int) (hi : Inv ed)
     (h : ecGlob (f + 1) ed loc cmd arg = some (r, ed')) : Inv ed' := by
   rw [ecGlob_eq] at h
+  by_cases hdep : ed.xgdep ≥ 7
+  · rw [if_pos hdep] at h; cases h; exact hi.to (by rfl) (by rfl) (by rfl)
+  rw [if_neg hdep] at h
   split at h
   · cases h
   · rename_i rc b e ed1 hr
@@ -124,10 +127,16 @@ theorem ecAt_inv (f : Nat) (hcmd : CmdOK f) (ed ed' : Ed) (loc cmd arg : Bytes) 
       have e1 := hi.same (exRegion_same hr)
       split at h
       · cases h; exact e1
-      · simp only [] at h
-        split at h
-        · cases h; exact e1
-        · exact hcmd _ _ _ _ (e1.to (by rfl) (by rfl) (by rfl)) h
+      · split at h
+        · cases h; exact e1.to (by rfl) (by rfl) (by rfl)
+        · simp only [] at h
+          split at h
+          · cases h; exact e1
+          · split at h
+            · cases h
+            · rename_i r2 ed2 hx
+              cases h
+              exact (hcmd _ _ _ _ (e1.to (by rfl) (by rfl) (by rfl)) hx).to (by rfl) (by rfl) (by rfl)
 
 /-! ### `:e` -/
 
